@@ -36,7 +36,7 @@ theorem gate_pre2 {cls : GClass} {cs : List Nat} {t : Nat} {u : Unit} {s s' : CS
     · exact notAvail_lt (hcs w hw)
     · have : w = t := by simpa using hw
       rw [this]; exact notAvail_lt ht.1)).good
-  refine hp.of_same hg ha.nq ha.free ha.anc ha.qmap (fun m hm => Or.inl (by rw [← ha.marked]; exact hm)) ?_
+  refine hp.of_same hg ha.nq ha.free ha.anc ha.qmap ha.kept (fun m hm => Or.inl (by rw [← ha.marked]; exact hm)) ?_
   intro q hq
   apply ha.cur_ne hc σ0 q
   rintro rfl
@@ -81,9 +81,9 @@ theorem event_sem2 {Q : FState → Nat → Prop} {e : String} {u : Unit} {s s' :
     (h : (event e).run s = .ok (u, s')) (hp : Pre2 scope ρ σ0 s) :
     Pre2 scope ρ σ0 s' ∧ Sem2 scope σ0 wo Q NoQ NoK NoQ s s' ∧ cur σ0 s' = cur σ0 s := by
   have := event_run h; subst this
-  exact ⟨hp.of_same (hp.good.of_eq rfl rfl rfl rfl rfl rfl rfl rfl) rfl rfl rfl rfl (fun m hm => Or.inl hm)
+  exact ⟨hp.of_same (hp.good.of_eq rfl rfl rfl rfl rfl rfl rfl rfl rfl) rfl rfl rfl rfl rfl (fun m hm => Or.inl hm)
       (fun _ _ => rfl),
-    Sem2.of_quiet rfl rfl rfl rfl rfl rfl (fun p hp' => Or.inl ⟨p, hp', rfl⟩) (fun m hm => Or.inl hm)
+    Sem2.of_quiet rfl rfl rfl rfl rfl rfl rfl (fun p hp' => Or.inl ⟨p, hp', rfl⟩) (fun m hm => Or.inl hm)
       (fun m hm => hm), rfl⟩
 
 theorem expqSet_sem2 {Q : FState → Nat → Prop} {e : BExp} {q : Nat} {u : Unit} {s s' : CState}
@@ -92,22 +92,22 @@ theorem expqSet_sem2 {Q : FState → Nat → Prop} {e : BExp} {q : Nat} {u : Uni
   obtain ⟨hqc, hk⟩ := expqSet_run h
   have hg : Good s' := (expqSet_ok (B := fun _ => False) h hp.good hq).good
   have hcur : cur σ0 s' = cur σ0 s := by unfold cur; rw [hqc]
-  exact ⟨hp.of_same hg (by rw [hqc]) (by rw [hqc]) (by rw [hqc]) (by rw [hqc])
+  exact ⟨hp.of_same hg (by rw [hqc]) (by rw [hqc]) (by rw [hqc]) (by rw [hqc]) (by rw [hqc])
       (fun m hm => Or.inl (by rw [← hqc]; exact hm)) (fun _ _ => by rw [hcur]),
-    Sem2.of_quiet (by rw [hqc]) (by rw [hqc]) (by rw [hqc]) (by rw [hqc]) (by rw [hqc]) (by rw [hqc]) hk
+    Sem2.of_quiet (by rw [hqc]) (by rw [hqc]) (by rw [hqc]) (by rw [hqc]) (by rw [hqc]) (by rw [hqc]) (by rw [hqc]) hk
       (fun m hm => Or.inl (by rw [← hqc]; exact hm)) (fun m hm => by rw [hqc]; exact hm), hcur, hqc⟩
 
 theorem markAll_sem2 {Q : FState → Nat → Prop} {ws : List Nat} {u : Unit} {s s' : CState}
     (h : (markAll ws).run s = .ok (u, s')) (hp : Pre2 scope ρ σ0 s)
     (htgt : wo = false → ∀ m ∈ ws, m ∈ s.qc.anc → Tgt s m) :
     Pre2 scope ρ σ0 s' ∧ Sem2 scope σ0 wo Q NoQ NoK (fun m => m ∈ ws ∧ m ∈ s.qc.anc) s s' ∧
-      cur σ0 s' = cur σ0 s ∧ (∀ m ∈ ws, m ∈ s.qc.anc → m ∈ s'.qc.marked) ∧ s'.qc.anc = s.qc.anc ∧
-      s'.qc.numQubits = s.qc.numQubits := by
-  obtain ⟨b0, b1, b2, b3, b4, b5, b6, b7, b8, b9⟩ := markAll_run2 ws h
+      cur σ0 s' = cur σ0 s ∧ (∀ m ∈ ws, m ∈ s.qc.anc → m ∉ s.qc.kept → m ∈ s'.qc.marked) ∧
+      s'.qc.anc = s.qc.anc ∧ s'.qc.numQubits = s.qc.numQubits := by
+  obtain ⟨b0, b1, b2, b3, b4, b5, b6, bk, b7, b8, b9⟩ := markAll_run2 ws h
   have hg : Good s' := (markAll_ok (B := fun _ => False) ws h hp.good).good
   have hcur : cur σ0 s' = cur σ0 s := cur_congr b1
-  exact ⟨hp.of_same hg b3 b4 b5 b6 (fun m hm => (b7 m hm).imp id (fun x => x.2)) (fun _ _ => by rw [hcur]),
-    Sem2.of_quiet b1 b2 b3 b4 b5 b6 (fun p hp' => Or.inl ⟨p, by rw [← b0]; exact hp', rfl⟩)
+  exact ⟨hp.of_same hg b3 b4 b5 b6 bk (fun m hm => (b7 m hm).imp id (fun x => x.2)) (fun _ _ => by rw [hcur]),
+    Sem2.of_quiet b1 b2 b3 b4 b5 b6 bk (fun p hp' => Or.inl ⟨p, by rw [← b0]; exact hp', rfl⟩)
       (fun m hm => (b7 m hm).imp id (fun x => ⟨x, fun hwo => by
         obtain ⟨g, hg, ht⟩ := htgt hwo m x.1 x.2
         exact ⟨g, by rw [b2]; exact hg, ht⟩⟩)) b8,
@@ -117,7 +117,7 @@ theorem markAncilla_sem2 {Q : FState → Nat → Prop} {w : Nat} {u : Unit} {s s
     (h : (markAncilla w).run s = .ok (u, s')) (hp : Pre2 scope ρ σ0 s)
     (htgt : wo = false → w ∈ s.qc.anc → Tgt s w) :
     Pre2 scope ρ σ0 s' ∧ Sem2 scope σ0 wo Q NoQ NoK (fun m => m = w ∧ w ∈ s.qc.anc) s s' ∧
-      cur σ0 s' = cur σ0 s ∧ (w ∈ s.qc.anc → w ∈ s'.qc.marked) ∧ s'.qc.anc = s.qc.anc := by
+      cur σ0 s' = cur σ0 s ∧ (w ∈ s.qc.anc → w ∉ s.qc.kept → w ∈ s'.qc.marked) ∧ s'.qc.anc = s.qc.anc := by
   have h' : (markAll [w]).run s = .ok (u, s') := by
     unfold markAll markAll
     show (markAncilla w >>= fun _ => pure ()).run s = _
@@ -126,7 +126,7 @@ theorem markAncilla_sem2 {Q : FState → Nat → Prop} {w : Nat} {u : Unit} {s s
   obtain ⟨p, sem, hc, hm, ha, _⟩ := markAll_sem2 (wo := wo) (Q := Q) h' hp (fun hwo m hm ha => by
     have : m = w := by simpa using hm
     rw [this] at ha ⊢; exact htgt hwo ha)
-  refine ⟨p, sem.mono (fun _ _ h => h) (fun _ h => h) (fun m hm' => ?_), hc, fun hw => hm w (by simp) hw, ha⟩
+  refine ⟨p, sem.mono (fun _ _ h => h) (fun _ h => h) (fun m hm' => ?_), hc, fun hw hk => hm w (by simp) hw hk, ha⟩
   exact ⟨by simpa using hm'.1, by have := hm'.1; simp at this; rw [← this]; exact hm'.2⟩
 
 /-! ### constants -/
@@ -143,7 +143,7 @@ theorem addQubit_sem2 {Q : FState → Nat → Prop} {name : String} {a : Nat} {s
       s'.qc.marked = s.qc.marked ∧ s'.qc.qmap = dictSet s.qc.qmap name s.qc.numQubits := by
   obtain ⟨rfl, rfl⟩ := addQubit_run h
   refine ⟨rfl, ⟨Nat.le_succ _, ?_, fun _ _ _ => rfl, fun p hp' => Or.inl ⟨p, hp', rfl⟩, fun m hm => Or.inl hm,
-    fun m hm => hm, fun a ha => ha, ?_, ?_, ⟨[], by simp, by simp, fun _ h => absurd h List.not_mem_nil,
+    fun m hm => hm, fun a ha => ha, ?_, ?_, rfl, ⟨[], by simp, by simp, fun _ h => absurd h List.not_mem_nil,
     fun _ => trivial⟩⟩, rfl, rfl, rfl, rfl, rfl, rfl⟩
   · intro q hq
     rcases hq with hq | hq
@@ -167,7 +167,7 @@ theorem Pre2.newConst {Q : FState → Nat → Prop} {name : String} {s s' : CSta
     (hm : s'.qc.marked = s.qc.marked) (hq : s'.qc.qmap = dictSet s.qc.qmap name s.qc.numQubits)
     (hv : cur σ0 s' s.qc.numQubits = kval ρ name) : Pre2 scope ρ σ0 s' := by
   refine ⟨hg, ?_, ?_, ?_, hp.scopeOK, by rw [hf]; exact hp.freeNd, by rw [hf, ha]; exact hp.freeAnc,
-    by rw [hm, ha]; exact hp.mkAnc⟩
+    by rw [hm, ha]; exact hp.mkAnc, by rw [sem.kkeep, hf]; exact hp.keptNF⟩
   · intro q hq'
     rw [sem.frame q (fun h => h) (Or.inr hq')]
     exact hp.zero q (sem.avail q hq')
@@ -307,6 +307,11 @@ theorem Res.tgt_of_anc {s s' : CState} {a : Nat} (hp' : Pre2 scope ρ σ0 s') (h
   · exact absurd ha (hp'.tbl n a hk hq).2.1
   · exact h.2.2 hwo
 
+/-- an ancilla returned for a sub-expression is not a kept ancilla (it came from the scratch space) -/
+theorem Res.notKept {s s' : CState} {a : Nat} (hp : Pre2 scope ρ σ0 s) (hp' : Pre2 scope ρ σ0 s')
+    (h : Res scope wo s s' a) (ha : a ∈ s'.qc.anc) (hk : s'.qc.kept = s.qc.kept) : a ∉ s'.qc.kept := by
+  rw [hk]; exact hp.notKept (h.sym_or_anc hp' ha)
+
 theorem Tgt.appended {cls : GClass} {wires : List Nat} {s s' : CState} {q : Nat}
     (ha : Appended cls wires s s') (h : Tgt s q) : Tgt s' q := by
   obtain ⟨g', _, _, _, hc⟩ := ha.gates
@@ -409,7 +414,9 @@ theorem exprSem2_not {x : BExp} (hx : ∀ n, x = .sym n → n ∈ scope) (ih : E
         exact hsym sy rfl (e1 ▸ hx n rfl)
       | none => simp at hc
     | _ => simp at hc
-  · obtain ⟨eret, s2, he, h2⟩ := run_bind_ok.mp h1
+  · obtain ⟨shared, s1', hsh, h1⟩ := run_bind_ok.mp h1
+    rw [(expqGet?_run hsh).1] at h1
+    obtain ⟨eret, s2, he, h2⟩ := run_bind_ok.mp h1
     obtain ⟨hp2, sem1, hv1, _⟩ := ih none none he hp
       (fun p hp' c hc => hcache p hp' c (by simp [compKeys, hc])) (by intro d hd0; cases hd0)
       (by intro y hy; cases hy) (fun _ => ⟨rfl, rfl⟩)
@@ -425,7 +432,7 @@ theorem exprSem2_not {x : BExp} (hx : ∀ n, x = .sym n → n ∈ scope) (ih : E
         | none => rfl
         | some d => simp at hcond
       subst hdn
-      have hanc : eret ∈ s3.qc.anc := by simpa using hcond.2
+      have hanc : eret ∈ s3.qc.anc := by simpa using hcond.1.2
       have hav0 : Avail s1 eret := hres.sym_or_anc hp2 hanc
       have hpriv : Priv scope s3 eret := ⟨hnav2, fun n hk hq' => (hp2.tbl n eret hk hq').2.1 hanc⟩
       obtain ⟨u1, s4, hev, h4⟩ := run_bind_ok.mp h3
@@ -500,6 +507,8 @@ theorem exprSem2_not {x : BExp} (hx : ∀ n, x = .sym n → n ∈ scope) (ih : E
         have hres4 : Res scope wo s1 s4 eret := hres.next semd
         obtain ⟨hpt3, sem3, hc3, hmk3, hanc3⟩ := markAncilla_sem2 (wo := wo) (Q := CtlQ scope ρ s') hmk hpt2
           (fun hwo ha => ((hres4.tgt_of_anc hp4 (hanc2 ▸ ha) hwo).appended a1).appended a2)
+        have hkept2 : t2.qc.kept = s1.qc.kept :=
+          a2.kept.trans (a1.kept.trans (semd.kkeep.trans sem1.kkeep))
         have hlt3 : d < t3.qc.numQubits := by
           rw [(markAncilla_run hmk).2.1, a2.nq]; exact notAvail_lt hpriv1.1
         obtain ⟨ead, hp', sem4, hc4⟩ : a = d ∧ Pre2 scope ρ σ0 s' ∧
@@ -519,7 +528,8 @@ theorem exprSem2_not {x : BExp} (hx : ∀ n, x = .sym n → n ∈ scope) (ih : E
             rw [a2.qmap, a1.qmap]; exact semd.qkeep n q hk hq'))
         obtain ⟨_, semc, tgc⟩ := cx_sem2 (scope := scope) (σ0 := σ0) (wo := wo) (Q := CtlQ scope ρ s') hcx hpriv4.1
           (fun _ => ctl_of_res hp2 hres (by rw [hcd]) hkq
-            (fun ha => sem4.mkeep _ (hmk3 (by rw [hanc2]; exact semd.akeep _ ha))))
+            (fun ha => sem4.mkeep _ (hmk3 (by rw [hanc2]; exact semd.akeep _ ha)
+              (by rw [hkept2]; exact hp.notKept (hres.sym_or_anc hp2 ha)))))
         obtain ⟨_, semx, _⟩ := xGate_sem2 (scope := scope) (σ0 := σ0) (wo := wo) (Q := CtlQ scope ρ s') hx' hpriv1.1
         have tail4 := ((semc.trans' semx).trans' sem3).trans' sem4
         have tgd' : Tgt s' a := ((tgc.of_sem semx).of_sem sem3).of_sem sem4
